@@ -166,10 +166,10 @@ package buffer
 
 //@ iface github.com/mailgun/multibuf.WriterOnce.Reader
 //@   params self
-//@   requires has_data: self.wrote
 //@   modifies self.taken, self.spilled
 //@   ensures handed_over: result1 == nil ==> result0 != nil && fresh(result0) && self.taken && result0.owns == old(self.spilled) && result0.pos == 0
-//@   ensures fails_only_when_taken: result1 != nil ==> old(self.taken) && result0 == nil
+//@   ensures no_data_is_an_error: !old(self.wrote) ==> result1 != nil
+//@   ensures fails_only_without_data_or_twice: result1 != nil ==> (old(self.taken) || !old(self.wrote)) && result0 == nil
 //@   ensures file_leaves_the_writer: !self.spilled
 
 //@ iface github.com/mailgun/multibuf.WriterOnce.Close
@@ -205,11 +205,12 @@ package buffer
 //@ func (*bufferWriter).Write
 //@   props C07 C15 C20
 //@   requires b != nil && b.buffer != nil
-//@   modifies b.writeError, b.buffer.wrote, b.buffer.spilled
+//@   modifies b.writeError, b.written, b.buffer.wrote, b.buffer.spilled
 //@   ensures never_fails_the_handler: result1 == nil
 //@   ensures captured_once: calls(b.buffer.Write) == 1 && callarg(b.buffer.Write, 0, 0) == buf
 //@   ensures over_limit_remembered: callres(b.buffer.Write, 0, 1) != nil ==> b.writeError == callres(b.buffer.Write, 0, 1) && result0 == len(buf)
-//@   ensures accepted: callres(b.buffer.Write, 0, 1) == nil ==> b.writeError == old(b.writeError) && result0 == callres(b.buffer.Write, 0, 0)
+//@   ensures accepted: callres(b.buffer.Write, 0, 1) == nil ==> b.writeError == old(b.writeError) && result0 == callres(b.buffer.Write, 0, 0) && b.written
+//@   ensures written_means_the_buffer_has_data: (old(b.written) ==> old(b.buffer.wrote)) ==> (b.written ==> b.buffer.wrote)
 //@ func (*bufferWriter).Hijack
 //@   props C20
 //@   requires b != nil
@@ -291,7 +292,9 @@ package buffer
 //@   at_call b.next.ServeHTTP {C06} body_from_the_first_byte: body == nil || body.pos == 0
 //@   at_call b.next.ServeHTTP {C07} bounded_attempts: 1 <= attempt && attempt <= 11
 //@   at_call b.next.ServeHTTP {C07,C20} fresh_capture_writer: istype(arg0, "*bufferWriter") && fresh(payload(arg0)) && asref(payload(arg0), "*bufferWriter").code == 0 && !asref(payload(arg0), "*bufferWriter").hijacked
-//@   at_call b.retryPredicate {C07} decided_on_this_attempt: arg0.attempt == attempt && arg0.responseCode == bw.code && arg0.r == req
+//@   at_call b.retryPredicate {C07} decided_on_this_attempt: arg0.attempt == attempt && arg0.responseCode == ite(bw.code == 0, 200, bw.code) && arg0.r == req
+//@   after_call b.next.ServeHTTP capture_writer_invariant: bw.written ==> bw.buffer.wrote
+//@   at_call github.com/mailgun/multibuf.WriterOnce.Reader {C07} only_when_the_handler_wrote: bw.buffer.wrote
 //@   at_call w.WriteHeader {C07} implicit_200: arg0 == ite(bw.code == 0, 200, bw.code)
 //@   at_call w.WriteHeader {C07} final_attempt: b.retryPredicate == nil || attempt > 10 || !callres(b.retryPredicate, 0, 0)
 //@   at_call w.WriteHeader {C07} headers_of_this_attempt: callarg(CopyHeaders, 0, 1) == bw.header
